@@ -20,6 +20,7 @@ def run(ctx):
                     jobs.append((exe, [mode, a, pat, t], be))
             jobs.append((exe, ["pbkdf2", 0, pat, t], be))
     common.parallel(lambda j: common.run_harness(ctx, j[0], j[1], label=j[2]), jobs)
+    common.align_jobs(ctx, jobs, lambda j: j[2] in ("asm", "c64") and j[1][2] == 3)
     ctx.assumptions += [
         "RFC 5869 over the reference HMAC; absent salt == empty salt (both give a zero block key); RFC 8018 with INT(i) big-endian from 1, count 0 treated as 1",
         "PBKDF2 PRF = cXOF('PBKDF2', custom = password, declared 32) as documented in pbkdf2.h; KDF = cXOF('KDF', custom, declared = outlen)(key)",
